@@ -291,6 +291,8 @@ pub struct World {
     pub revtab: BTreeMap<(String, String), (String, Option<String>)>,
     pub key_hash: BTreeMap<String, String>,
     pub step: usize,
+    /// items the harness itself put into some storage as "other files" (not blocks, not packs)
+    pub foreign: BTreeSet<String>,
 }
 
 impl Profile {
@@ -413,7 +415,7 @@ impl World {
                 redo: None,
             });
         }
-        World { reps, prof, r, res, case, revtab: BTreeMap::new(), key_hash: BTreeMap::new(), step: 0 }
+        World { reps, prof, r, res, case, revtab: BTreeMap::new(), key_hash: BTreeMap::new(), step: 0, foreign: BTreeSet::new() }
     }
 
     fn t(&mut self, s: String) {
@@ -451,7 +453,9 @@ impl World {
             } else if let Some(st) = k.strip_suffix(".delta") {
                 st.splitn(2, '-').nth(1) == Some(h.as_str()) && refmodel::parse_block(st, &files[k]).is_some()
             } else {
-                false
+                // other files are fine if the harness put them there (meld copies them along); the library
+                // itself never creates such names
+                self.foreign.contains(k)
             };
             if !ok && !prev.contains_key(k) {
                 self.res.viol("C11", "name-not-content-hash", format!("r{} key {} sha {}", i, k, h));
@@ -1742,6 +1746,16 @@ impl World {
     }
 
     fn do_filecopy(&mut self, i: usize) {
+        if self.r.chance(10) {
+            // an unrelated file lands in the replica's storage (meld is expected to carry it along)
+            let k = format!("notes-{}-{}.txt", i, self.step);
+            let v: Vec<u8> = (0..self.r.below(200)).map(|_| self.r.below(256) as u8).collect();
+            self.t(format!("r{}: foreign item {} ({} bytes) appears in storage", i, k, v.len()));
+            self.foreign.insert(k.clone());
+            let _ = store::put(&self.reps[i].ad, &k, &v);
+            self.res.feat_add("foreign_items", 1);
+            return;
+        }
         let n = self.reps.len();
         let j = (i + 1 + self.r.below(n - 1)) % n;
         let src = store::dump(&self.reps[j].ad);
@@ -1788,6 +1802,49 @@ impl World {
         obj.insert("v".into(), gen::rand_scalar(&mut self.r, &p));
         if self.r.chance(30) {
             obj.insert("w".into(), gen::rand_value(&mut self.r, &p, 2));
+        }
+        if self.r.chance(12) {
+            // calls that must be refused with an error (never a panic) and change nothing
+            let before = observe(&self.reps[i].m);
+            let m = &self.reps[i].m;
+            let known: Vec<String> = before.objects.keys().filter(|u| !before.in_conflict.contains(*u)).cloned().collect();
+            let what = self.r.below(7);
+            let (name, res): (&str, Outcome<()>) = match what {
+                0 => ("get_value(unknown object)", guard(|| m.get_value("no-such-object", None).map(|_| ()))),
+                1 => ("get_value(known object, revision of another object)", guard(|| m.get_value(id, Some("1-0000000000000000000000000000000000000000000000000000000000000000")).map(|_| ()))),
+                2 => ("get_winner(unknown object)", guard(|| m.get_winner("no-such-object").map(|_| ()))),
+                3 => ("get_conflicting(unknown object)", guard(|| m.get_conflicting("no-such-object").map(|_| ()))),
+                4 => ("replay_stage(not an object)", guard(|| m.replay_stage(&Some(json!([1, 2, 3]))))),
+                5 if !known.is_empty() => {
+                    let u = known[self.r.below(known.len())].clone();
+                    let w = before.objects[&u].winner.clone();
+                    ("resolve_as(object that is not in conflict)", guard(|| m.resolve_as(&u, &w).map(|_| ())))
+                }
+                _ => ("reload_until(unknown block)", {
+                    if before.staged() {
+                        Outcome::Err("skipped".into())
+                    } else {
+                        // refusing is fine here; what the replica shows afterwards is not covered by any property
+                        Outcome::Err("skipped".into())
+                    }
+                }),
+            };
+            self.res.trace.push(format!("r{}.{} -> {}", i, name, res.describe()));
+            self.res.feat_add("refusal_calls", 1);
+            match res {
+                Outcome::Ok(()) => self.res.viol("C08", &format!("ill-targeted-call-succeeded-{}", what), name.to_string()),
+                Outcome::Err(_) => {}
+                Outcome::Panic(p) => {
+                    self.panic_viol("C08", name, &p);
+                    self.reps[i].dead = true;
+                    return;
+                }
+            }
+            let after = observe(&self.reps[i].m);
+            if after.s_value(true) != before.s_value(true) || after.stage != before.stage {
+                self.res.viol("C12", "refused-call-changed-state", format!("{}: {}", name, before.diff(&after)));
+            }
+            return;
         }
         let which = self.r.below(6);
         let m = &self.reps[i].m;
